@@ -88,7 +88,7 @@ Proof.
 Qed.
 Print Assumptions c15_flush_offloads_every_resident_record.
 
-(* F19 (fixed by 517c997): the pinned snapshot's flush was evict_all.  With LRU a record that is looked up and whose
+(* F19 (fixed by 92930ee): the pinned snapshot's flush was evict_all.  With LRU a record that is looked up and whose
    handle is still alive is pinned, evict_all stops with it still resident (the implementation's empty victim list is
    admissible), so close() never handed it to the disk tier; the repaired flush must take it *)
 Example c15_refuted_F19_evict_all_leaves_a_referenced_record :
